@@ -13,7 +13,12 @@ import (
 // SelectorMatchFilter() removes all objects that are not services whose
 // selector matches the given target.
 func SelectorMatchFilter(target map[string]string) filter.ComparableFilter {
-	return &serviceForFilter{target}
+	// the filter keeps its own copy: the caller's map stays the caller's
+	copied := make(map[string]string, len(target))
+	for k, v := range target {
+		copied[k] = v
+	}
+	return &serviceForFilter{copied}
 }
 
 type serviceForFilter struct {
